@@ -49,6 +49,11 @@ def run_case(c):
     # Derive: positive affine map of every series, and a reordering of the series
     aff = data * np.array([2.0, 0.5, 3.0])[None, :] + np.array([1.0, -4.0, 0.25])[None, :]
     put("all_aff", lambda: enc.arr(CouplingAnalysis(aff, silence_level=3).cross_correlation(tau_max=tm, lag_mode="all")))
+    # ... and a large common offset (the statistics are translation invariant; the data stay exact)
+    big = np.array(c["data"], dtype=float) + 1048576.0
+    put("all_big", lambda: enc.arr(CouplingAnalysis(big.copy(), silence_level=3).cross_correlation(tau_max=tm, lag_mode="all")))
+    put("pure0_big", lambda: enc.arr(CouplingAnalysisPurePython(big.copy(), silence_level=3)
+                                     .cross_correlation(tau_max=0, lag_mode="all")[0]))
     perm = [2, 0, 1]
     put("all_perm", lambda: enc.arr(CouplingAnalysis(data[:, perm].copy(), silence_level=3)
                                     .cross_correlation(tau_max=tm, lag_mode="all")))
@@ -65,7 +70,8 @@ def run_case(c):
         put("tmi4", lambda: enc.arr(Surrogates.test_mutual_information(orig.copy(), surr.copy(), n_bins=4)))
     for key in ("tpear", "tmi2", "tmi4", "partial"):
         o.setdefault(key, [[0] * 3] * 3)
-    for key in ("all", "maxv", "maxl", "symv", "syml", "gauss", "pure0", "tsonis", "spearman", "all_aff", "all_perm"):
+    for key in ("all", "maxv", "maxl", "symv", "syml", "gauss", "pure0", "tsonis", "spearman", "all_aff", "all_perm",
+                "all_big", "pure0_big"):
         o.setdefault(key, [])
     rec["obs"] = o
     return rec
